@@ -1569,6 +1569,10 @@ package mq
 //@   within (*buffer).getAny@1 loop 0:
 //@     -- a user property (0x26): identifier, two length-prefixed strings (pl1, pl2: their lengths, lets of getAny)
 //@     latch up_cur:: b.err == nil && id == 38 && !haskey(fields, id) ==> b.i == old(b.i) + 5 + pl1 + pl2   #C03
+//@     latch up_cnt:: b.err == nil && id == 38 && !haskey(fields, id) ==> len(self.UserProperties) == len(old(self.UserProperties)) + 1   #C03
+//@     latch up_len:: b.err == nil && id == 38 && !haskey(fields, id) ==> len(self.UserProperties[len(self.UserProperties)-1][0]) == pl1 && len(self.UserProperties[len(self.UserProperties)-1][1]) == pl2   #C03
+//@     latch up_key:: b.err == nil && id == 38 && !haskey(fields, id) ==> forall k in 0..pl1: self.UserProperties[len(self.UserProperties)-1][0][k] == b.data[old(b.i)+3+k]   #C03
+//@     latch up_val:: b.err == nil && id == 38 && !haskey(fields, id) ==> forall k in 0..pl2: self.UserProperties[len(self.UserProperties)-1][1][k] == b.data[old(b.i)+5+pl1+k]   #C03
 //@     -- a subscription identifier (0x0b): identifier, variable byte integer; the cursor moves by the minimal width of the value
 //@     latch sid_acc:: id == 11 && !haskey(fields, id) && specVbOK(len(b.data) - old(b.i) - 1, b.data[old(b.i)+1], b.data[old(b.i)+2], b.data[old(b.i)+3], b.data[old(b.i)+4]) ==> b.err == nil   #C03
 //@     latch sid_cur:: b.err == nil && id == 11 && !haskey(fields, id) ==> b.i == old(b.i) + 1 + specVbWidth(specVbValue(b.data[old(b.i)+1], b.data[old(b.i)+2], b.data[old(b.i)+3], b.data[old(b.i)+4]))   #C03
@@ -1611,6 +1615,10 @@ package mq
 //@   within (*buffer).getAny loop 0:
 //@     -- a user property (0x26): identifier, two length-prefixed strings (pl1, pl2: their lengths, lets of getAny)
 //@     latch up_cur:: b.err == nil && id == 38 && !haskey(fields, id) ==> b.i == old(b.i) + 5 + pl1 + pl2   #C03
+//@     latch up_cnt:: b.err == nil && id == 38 && !haskey(fields, id) ==> len(self.UserProperties) == len(old(self.UserProperties)) + 1   #C03
+//@     latch up_len:: b.err == nil && id == 38 && !haskey(fields, id) ==> len(self.UserProperties[len(self.UserProperties)-1][0]) == pl1 && len(self.UserProperties[len(self.UserProperties)-1][1]) == pl2   #C03
+//@     latch up_key:: b.err == nil && id == 38 && !haskey(fields, id) ==> forall k in 0..pl1: self.UserProperties[len(self.UserProperties)-1][0][k] == b.data[old(b.i)+3+k]   #C03
+//@     latch up_val:: b.err == nil && id == 38 && !haskey(fields, id) ==> forall k in 0..pl2: self.UserProperties[len(self.UserProperties)-1][1][k] == b.data[old(b.i)+5+pl1+k]   #C03
 //@     -- a subscription identifier (0x0b): identifier, variable byte integer; the cursor moves by the minimal width of the value
 //@     latch sid_acc:: id == 11 && !haskey(fields, id) && specVbOK(len(b.data) - old(b.i) - 1, b.data[old(b.i)+1], b.data[old(b.i)+2], b.data[old(b.i)+3], b.data[old(b.i)+4]) ==> b.err == nil   #C03
 //@     latch sid_cur:: b.err == nil && id == 11 && !haskey(fields, id) ==> b.i == old(b.i) + 1 + specVbWidth(specVbValue(b.data[old(b.i)+1], b.data[old(b.i)+2], b.data[old(b.i)+3], b.data[old(b.i)+4]))   #C03
@@ -1689,9 +1697,14 @@ package mq
 //@   within (*buffer).getAny loop 0:
 //@     -- a user property (0x26): identifier, two length-prefixed strings (pl1, pl2: their lengths, lets of getAny)
 //@     latch up_cur:: b.err == nil && id == 38 && !haskey(fields, id) ==> b.i == old(b.i) + 5 + pl1 + pl2   #C03
+//@     latch up_cnt:: b.err == nil && id == 38 && !haskey(fields, id) ==> len(self.UserProperties) == len(old(self.UserProperties)) + 1   #C03
+//@     latch up_len:: b.err == nil && id == 38 && !haskey(fields, id) ==> len(self.UserProperties[len(self.UserProperties)-1][0]) == pl1 && len(self.UserProperties[len(self.UserProperties)-1][1]) == pl2   #C03
+//@     latch up_key:: b.err == nil && id == 38 && !haskey(fields, id) ==> forall k in 0..pl1: self.UserProperties[len(self.UserProperties)-1][0][k] == b.data[old(b.i)+3+k]   #C03
+//@     latch up_val:: b.err == nil && id == 38 && !haskey(fields, id) ==> forall k in 0..pl2: self.UserProperties[len(self.UserProperties)-1][1][k] == b.data[old(b.i)+5+pl1+k]   #C03
 //@     -- a subscription identifier (0x0b): identifier, variable byte integer; the cursor moves by the minimal width of the value
 //@     latch sid_acc:: id == 11 && !haskey(fields, id) && specVbOK(len(b.data) - old(b.i) - 1, b.data[old(b.i)+1], b.data[old(b.i)+2], b.data[old(b.i)+3], b.data[old(b.i)+4]) ==> b.err == nil   #C03
 //@     latch sid_cur:: b.err == nil && id == 11 && !haskey(fields, id) ==> b.i == old(b.i) + 1 + specVbWidth(specVbValue(b.data[old(b.i)+1], b.data[old(b.i)+2], b.data[old(b.i)+3], b.data[old(b.i)+4]))   #C03
+//@     latch sid_val:: b.err == nil && id == 11 && !haskey(fields, id) ==> len(self.SubscriptionIDs()) == len(old(self.SubscriptionIDs())) + 1 && uint(self.SubscriptionIDs()[len(self.SubscriptionIDs())-1]) == specVbValue(b.data[old(b.i)+1], b.data[old(b.i)+2], b.data[old(b.i)+3], b.data[old(b.i)+4])   #C03
 //@     latch val_x01:: b.err == nil && id == 1 ==> self.PayloadFormat() == (b.data[old(b.i)+1] == 1)   #C03
 //@     latch has_x01:: id == 1 ==> haskey(fields, id)   #C03
 //@     latch cur_x01:: b.err == nil && id == 1 ==> b.i == old(b.i) + 2   #C03
@@ -1724,6 +1737,10 @@ package mq
 //@   within (*buffer).getAny loop 0:
 //@     -- a user property (0x26): identifier, two length-prefixed strings (pl1, pl2: their lengths, lets of getAny)
 //@     latch up_cur:: b.err == nil && id == 38 && !haskey(fields, id) ==> b.i == old(b.i) + 5 + pl1 + pl2   #C03
+//@     latch up_cnt:: b.err == nil && id == 38 && !haskey(fields, id) ==> len(self.UserProperties) == len(old(self.UserProperties)) + 1   #C03
+//@     latch up_len:: b.err == nil && id == 38 && !haskey(fields, id) ==> len(self.UserProperties[len(self.UserProperties)-1][0]) == pl1 && len(self.UserProperties[len(self.UserProperties)-1][1]) == pl2   #C03
+//@     latch up_key:: b.err == nil && id == 38 && !haskey(fields, id) ==> forall k in 0..pl1: self.UserProperties[len(self.UserProperties)-1][0][k] == b.data[old(b.i)+3+k]   #C03
+//@     latch up_val:: b.err == nil && id == 38 && !haskey(fields, id) ==> forall k in 0..pl2: self.UserProperties[len(self.UserProperties)-1][1][k] == b.data[old(b.i)+5+pl1+k]   #C03
 //@     -- a subscription identifier (0x0b): identifier, variable byte integer; the cursor moves by the minimal width of the value
 //@     latch sid_acc:: id == 11 && !haskey(fields, id) && specVbOK(len(b.data) - old(b.i) - 1, b.data[old(b.i)+1], b.data[old(b.i)+2], b.data[old(b.i)+3], b.data[old(b.i)+4]) ==> b.err == nil   #C03
 //@     latch sid_cur:: b.err == nil && id == 11 && !haskey(fields, id) ==> b.i == old(b.i) + 1 + specVbWidth(specVbValue(b.data[old(b.i)+1], b.data[old(b.i)+2], b.data[old(b.i)+3], b.data[old(b.i)+4]))   #C03
@@ -1737,6 +1754,10 @@ package mq
 //@   within (*buffer).getAny loop 0:
 //@     -- a user property (0x26): identifier, two length-prefixed strings (pl1, pl2: their lengths, lets of getAny)
 //@     latch up_cur:: b.err == nil && id == 38 && !haskey(fields, id) ==> b.i == old(b.i) + 5 + pl1 + pl2   #C03
+//@     latch up_cnt:: b.err == nil && id == 38 && !haskey(fields, id) ==> len(self.UserProperties) == len(old(self.UserProperties)) + 1   #C03
+//@     latch up_len:: b.err == nil && id == 38 && !haskey(fields, id) ==> len(self.UserProperties[len(self.UserProperties)-1][0]) == pl1 && len(self.UserProperties[len(self.UserProperties)-1][1]) == pl2   #C03
+//@     latch up_key:: b.err == nil && id == 38 && !haskey(fields, id) ==> forall k in 0..pl1: self.UserProperties[len(self.UserProperties)-1][0][k] == b.data[old(b.i)+3+k]   #C03
+//@     latch up_val:: b.err == nil && id == 38 && !haskey(fields, id) ==> forall k in 0..pl2: self.UserProperties[len(self.UserProperties)-1][1][k] == b.data[old(b.i)+5+pl1+k]   #C03
 //@     -- a subscription identifier (0x0b): identifier, variable byte integer; the cursor moves by the minimal width of the value
 //@     latch sid_acc:: id == 11 && !haskey(fields, id) && specVbOK(len(b.data) - old(b.i) - 1, b.data[old(b.i)+1], b.data[old(b.i)+2], b.data[old(b.i)+3], b.data[old(b.i)+4]) ==> b.err == nil   #C03
 //@     latch sid_cur:: b.err == nil && id == 11 && !haskey(fields, id) ==> b.i == old(b.i) + 1 + specVbWidth(specVbValue(b.data[old(b.i)+1], b.data[old(b.i)+2], b.data[old(b.i)+3], b.data[old(b.i)+4]))   #C03
@@ -1750,6 +1771,10 @@ package mq
 //@   within (*buffer).getAny loop 0:
 //@     -- a user property (0x26): identifier, two length-prefixed strings (pl1, pl2: their lengths, lets of getAny)
 //@     latch up_cur:: b.err == nil && id == 38 && !haskey(fields, id) ==> b.i == old(b.i) + 5 + pl1 + pl2   #C03
+//@     latch up_cnt:: b.err == nil && id == 38 && !haskey(fields, id) ==> len(self.UserProperties) == len(old(self.UserProperties)) + 1   #C03
+//@     latch up_len:: b.err == nil && id == 38 && !haskey(fields, id) ==> len(self.UserProperties[len(self.UserProperties)-1][0]) == pl1 && len(self.UserProperties[len(self.UserProperties)-1][1]) == pl2   #C03
+//@     latch up_key:: b.err == nil && id == 38 && !haskey(fields, id) ==> forall k in 0..pl1: self.UserProperties[len(self.UserProperties)-1][0][k] == b.data[old(b.i)+3+k]   #C03
+//@     latch up_val:: b.err == nil && id == 38 && !haskey(fields, id) ==> forall k in 0..pl2: self.UserProperties[len(self.UserProperties)-1][1][k] == b.data[old(b.i)+5+pl1+k]   #C03
 //@     -- a subscription identifier (0x0b): identifier, variable byte integer; the cursor moves by the minimal width of the value
 //@     latch sid_acc:: id == 11 && !haskey(fields, id) && specVbOK(len(b.data) - old(b.i) - 1, b.data[old(b.i)+1], b.data[old(b.i)+2], b.data[old(b.i)+3], b.data[old(b.i)+4]) ==> b.err == nil   #C03
 //@     latch sid_cur:: b.err == nil && id == 11 && !haskey(fields, id) ==> b.i == old(b.i) + 1 + specVbWidth(specVbValue(b.data[old(b.i)+1], b.data[old(b.i)+2], b.data[old(b.i)+3], b.data[old(b.i)+4]))   #C03
@@ -1763,6 +1788,10 @@ package mq
 //@   within (*buffer).getAny loop 0:
 //@     -- a user property (0x26): identifier, two length-prefixed strings (pl1, pl2: their lengths, lets of getAny)
 //@     latch up_cur:: b.err == nil && id == 38 && !haskey(fields, id) ==> b.i == old(b.i) + 5 + pl1 + pl2   #C03
+//@     latch up_cnt:: b.err == nil && id == 38 && !haskey(fields, id) ==> len(self.UserProperties) == len(old(self.UserProperties)) + 1   #C03
+//@     latch up_len:: b.err == nil && id == 38 && !haskey(fields, id) ==> len(self.UserProperties[len(self.UserProperties)-1][0]) == pl1 && len(self.UserProperties[len(self.UserProperties)-1][1]) == pl2   #C03
+//@     latch up_key:: b.err == nil && id == 38 && !haskey(fields, id) ==> forall k in 0..pl1: self.UserProperties[len(self.UserProperties)-1][0][k] == b.data[old(b.i)+3+k]   #C03
+//@     latch up_val:: b.err == nil && id == 38 && !haskey(fields, id) ==> forall k in 0..pl2: self.UserProperties[len(self.UserProperties)-1][1][k] == b.data[old(b.i)+5+pl1+k]   #C03
 //@     -- a subscription identifier (0x0b): identifier, variable byte integer; the cursor moves by the minimal width of the value
 //@     latch sid_acc:: id == 11 && !haskey(fields, id) && specVbOK(len(b.data) - old(b.i) - 1, b.data[old(b.i)+1], b.data[old(b.i)+2], b.data[old(b.i)+3], b.data[old(b.i)+4]) ==> b.err == nil   #C03
 //@     latch sid_cur:: b.err == nil && id == 11 && !haskey(fields, id) ==> b.i == old(b.i) + 1 + specVbWidth(specVbValue(b.data[old(b.i)+1], b.data[old(b.i)+2], b.data[old(b.i)+3], b.data[old(b.i)+4]))   #C03
@@ -1776,14 +1805,26 @@ package mq
 //@   within (*buffer).getAny loop 0:
 //@     -- a user property (0x26): identifier, two length-prefixed strings (pl1, pl2: their lengths, lets of getAny)
 //@     latch up_cur:: b.err == nil && id == 38 && !haskey(fields, id) ==> b.i == old(b.i) + 5 + pl1 + pl2   #C03
+//@     latch up_cnt:: b.err == nil && id == 38 && !haskey(fields, id) ==> len(self.UserProperties) == len(old(self.UserProperties)) + 1   #C03
+//@     latch up_len:: b.err == nil && id == 38 && !haskey(fields, id) ==> len(self.UserProperties[len(self.UserProperties)-1][0]) == pl1 && len(self.UserProperties[len(self.UserProperties)-1][1]) == pl2   #C03
+//@     latch up_key:: b.err == nil && id == 38 && !haskey(fields, id) ==> forall k in 0..pl1: self.UserProperties[len(self.UserProperties)-1][0][k] == b.data[old(b.i)+3+k]   #C03
+//@     latch up_val:: b.err == nil && id == 38 && !haskey(fields, id) ==> forall k in 0..pl2: self.UserProperties[len(self.UserProperties)-1][1][k] == b.data[old(b.i)+5+pl1+k]   #C03
 //@     -- a subscription identifier (0x0b): identifier, variable byte integer; the cursor moves by the minimal width of the value
 //@     latch sid_acc:: id == 11 && !haskey(fields, id) && specVbOK(len(b.data) - old(b.i) - 1, b.data[old(b.i)+1], b.data[old(b.i)+2], b.data[old(b.i)+3], b.data[old(b.i)+4]) ==> b.err == nil   #C03
 //@     latch sid_cur:: b.err == nil && id == 11 && !haskey(fields, id) ==> b.i == old(b.i) + 1 + specVbWidth(specVbValue(b.data[old(b.i)+1], b.data[old(b.i)+2], b.data[old(b.i)+3], b.data[old(b.i)+4]))   #C03
+//@     latch has_x0b:: id == 11 ==> haskey(fields, id)   #C03
+//@     latch val_x0b:: b.err == nil && id == 11 ==> uint(self.SubscriptionID()) == specVbValue(b.data[old(b.i)+1], b.data[old(b.i)+2], b.data[old(b.i)+3], b.data[old(b.i)+4])   #C03
+//@     latch cur_x0b:: b.err == nil && id == 11 ==> b.i == old(b.i) + 1 + specVbWidth(specVbValue(b.data[old(b.i)+1], b.data[old(b.i)+2], b.data[old(b.i)+3], b.data[old(b.i)+4]))   #C03
+//@     latch acc_x0b:: id == 11 && specVbOK(len(b.data) - old(b.i) - 1, b.data[old(b.i)+1], b.data[old(b.i)+2], b.data[old(b.i)+3], b.data[old(b.i)+4]) ==> b.err == nil   #C03
 
 //@ func (*SubAck).UnmarshalBinary
 //@   within (*buffer).getAny loop 0:
 //@     -- a user property (0x26): identifier, two length-prefixed strings (pl1, pl2: their lengths, lets of getAny)
 //@     latch up_cur:: b.err == nil && id == 38 && !haskey(fields, id) ==> b.i == old(b.i) + 5 + pl1 + pl2   #C03
+//@     latch up_cnt:: b.err == nil && id == 38 && !haskey(fields, id) ==> len(self.UserProperties) == len(old(self.UserProperties)) + 1   #C03
+//@     latch up_len:: b.err == nil && id == 38 && !haskey(fields, id) ==> len(self.UserProperties[len(self.UserProperties)-1][0]) == pl1 && len(self.UserProperties[len(self.UserProperties)-1][1]) == pl2   #C03
+//@     latch up_key:: b.err == nil && id == 38 && !haskey(fields, id) ==> forall k in 0..pl1: self.UserProperties[len(self.UserProperties)-1][0][k] == b.data[old(b.i)+3+k]   #C03
+//@     latch up_val:: b.err == nil && id == 38 && !haskey(fields, id) ==> forall k in 0..pl2: self.UserProperties[len(self.UserProperties)-1][1][k] == b.data[old(b.i)+5+pl1+k]   #C03
 //@     -- a subscription identifier (0x0b): identifier, variable byte integer; the cursor moves by the minimal width of the value
 //@     latch sid_acc:: id == 11 && !haskey(fields, id) && specVbOK(len(b.data) - old(b.i) - 1, b.data[old(b.i)+1], b.data[old(b.i)+2], b.data[old(b.i)+3], b.data[old(b.i)+4]) ==> b.err == nil   #C03
 //@     latch sid_cur:: b.err == nil && id == 11 && !haskey(fields, id) ==> b.i == old(b.i) + 1 + specVbWidth(specVbValue(b.data[old(b.i)+1], b.data[old(b.i)+2], b.data[old(b.i)+3], b.data[old(b.i)+4]))   #C03
@@ -1797,6 +1838,10 @@ package mq
 //@   within (*buffer).getAny loop 0:
 //@     -- a user property (0x26): identifier, two length-prefixed strings (pl1, pl2: their lengths, lets of getAny)
 //@     latch up_cur:: b.err == nil && id == 38 && !haskey(fields, id) ==> b.i == old(b.i) + 5 + pl1 + pl2   #C03
+//@     latch up_cnt:: b.err == nil && id == 38 && !haskey(fields, id) ==> len(self.UserProperties) == len(old(self.UserProperties)) + 1   #C03
+//@     latch up_len:: b.err == nil && id == 38 && !haskey(fields, id) ==> len(self.UserProperties[len(self.UserProperties)-1][0]) == pl1 && len(self.UserProperties[len(self.UserProperties)-1][1]) == pl2   #C03
+//@     latch up_key:: b.err == nil && id == 38 && !haskey(fields, id) ==> forall k in 0..pl1: self.UserProperties[len(self.UserProperties)-1][0][k] == b.data[old(b.i)+3+k]   #C03
+//@     latch up_val:: b.err == nil && id == 38 && !haskey(fields, id) ==> forall k in 0..pl2: self.UserProperties[len(self.UserProperties)-1][1][k] == b.data[old(b.i)+5+pl1+k]   #C03
 //@     -- a subscription identifier (0x0b): identifier, variable byte integer; the cursor moves by the minimal width of the value
 //@     latch sid_acc:: id == 11 && !haskey(fields, id) && specVbOK(len(b.data) - old(b.i) - 1, b.data[old(b.i)+1], b.data[old(b.i)+2], b.data[old(b.i)+3], b.data[old(b.i)+4]) ==> b.err == nil   #C03
 //@     latch sid_cur:: b.err == nil && id == 11 && !haskey(fields, id) ==> b.i == old(b.i) + 1 + specVbWidth(specVbValue(b.data[old(b.i)+1], b.data[old(b.i)+2], b.data[old(b.i)+3], b.data[old(b.i)+4]))   #C03
@@ -1805,6 +1850,10 @@ package mq
 //@   within (*buffer).getAny loop 0:
 //@     -- a user property (0x26): identifier, two length-prefixed strings (pl1, pl2: their lengths, lets of getAny)
 //@     latch up_cur:: b.err == nil && id == 38 && !haskey(fields, id) ==> b.i == old(b.i) + 5 + pl1 + pl2   #C03
+//@     latch up_cnt:: b.err == nil && id == 38 && !haskey(fields, id) ==> len(self.UserProperties) == len(old(self.UserProperties)) + 1   #C03
+//@     latch up_len:: b.err == nil && id == 38 && !haskey(fields, id) ==> len(self.UserProperties[len(self.UserProperties)-1][0]) == pl1 && len(self.UserProperties[len(self.UserProperties)-1][1]) == pl2   #C03
+//@     latch up_key:: b.err == nil && id == 38 && !haskey(fields, id) ==> forall k in 0..pl1: self.UserProperties[len(self.UserProperties)-1][0][k] == b.data[old(b.i)+3+k]   #C03
+//@     latch up_val:: b.err == nil && id == 38 && !haskey(fields, id) ==> forall k in 0..pl2: self.UserProperties[len(self.UserProperties)-1][1][k] == b.data[old(b.i)+5+pl1+k]   #C03
 //@     -- a subscription identifier (0x0b): identifier, variable byte integer; the cursor moves by the minimal width of the value
 //@     latch sid_acc:: id == 11 && !haskey(fields, id) && specVbOK(len(b.data) - old(b.i) - 1, b.data[old(b.i)+1], b.data[old(b.i)+2], b.data[old(b.i)+3], b.data[old(b.i)+4]) ==> b.err == nil   #C03
 //@     latch sid_cur:: b.err == nil && id == 11 && !haskey(fields, id) ==> b.i == old(b.i) + 1 + specVbWidth(specVbValue(b.data[old(b.i)+1], b.data[old(b.i)+2], b.data[old(b.i)+3], b.data[old(b.i)+4]))   #C03
@@ -1818,6 +1867,10 @@ package mq
 //@   within (*buffer).getAny loop 0:
 //@     -- a user property (0x26): identifier, two length-prefixed strings (pl1, pl2: their lengths, lets of getAny)
 //@     latch up_cur:: b.err == nil && id == 38 && !haskey(fields, id) ==> b.i == old(b.i) + 5 + pl1 + pl2   #C03
+//@     latch up_cnt:: b.err == nil && id == 38 && !haskey(fields, id) ==> len(self.UserProperties) == len(old(self.UserProperties)) + 1   #C03
+//@     latch up_len:: b.err == nil && id == 38 && !haskey(fields, id) ==> len(self.UserProperties[len(self.UserProperties)-1][0]) == pl1 && len(self.UserProperties[len(self.UserProperties)-1][1]) == pl2   #C03
+//@     latch up_key:: b.err == nil && id == 38 && !haskey(fields, id) ==> forall k in 0..pl1: self.UserProperties[len(self.UserProperties)-1][0][k] == b.data[old(b.i)+3+k]   #C03
+//@     latch up_val:: b.err == nil && id == 38 && !haskey(fields, id) ==> forall k in 0..pl2: self.UserProperties[len(self.UserProperties)-1][1][k] == b.data[old(b.i)+5+pl1+k]   #C03
 //@     -- a subscription identifier (0x0b): identifier, variable byte integer; the cursor moves by the minimal width of the value
 //@     latch sid_acc:: id == 11 && !haskey(fields, id) && specVbOK(len(b.data) - old(b.i) - 1, b.data[old(b.i)+1], b.data[old(b.i)+2], b.data[old(b.i)+3], b.data[old(b.i)+4]) ==> b.err == nil   #C03
 //@     latch sid_cur:: b.err == nil && id == 11 && !haskey(fields, id) ==> b.i == old(b.i) + 1 + specVbWidth(specVbValue(b.data[old(b.i)+1], b.data[old(b.i)+2], b.data[old(b.i)+3], b.data[old(b.i)+4]))   #C03
@@ -1831,6 +1884,10 @@ package mq
 //@   within (*buffer).getAny loop 0:
 //@     -- a user property (0x26): identifier, two length-prefixed strings (pl1, pl2: their lengths, lets of getAny)
 //@     latch up_cur:: b.err == nil && id == 38 && !haskey(fields, id) ==> b.i == old(b.i) + 5 + pl1 + pl2   #C03
+//@     latch up_cnt:: b.err == nil && id == 38 && !haskey(fields, id) ==> len(self.UserProperties) == len(old(self.UserProperties)) + 1   #C03
+//@     latch up_len:: b.err == nil && id == 38 && !haskey(fields, id) ==> len(self.UserProperties[len(self.UserProperties)-1][0]) == pl1 && len(self.UserProperties[len(self.UserProperties)-1][1]) == pl2   #C03
+//@     latch up_key:: b.err == nil && id == 38 && !haskey(fields, id) ==> forall k in 0..pl1: self.UserProperties[len(self.UserProperties)-1][0][k] == b.data[old(b.i)+3+k]   #C03
+//@     latch up_val:: b.err == nil && id == 38 && !haskey(fields, id) ==> forall k in 0..pl2: self.UserProperties[len(self.UserProperties)-1][1][k] == b.data[old(b.i)+5+pl1+k]   #C03
 //@     -- a subscription identifier (0x0b): identifier, variable byte integer; the cursor moves by the minimal width of the value
 //@     latch sid_acc:: id == 11 && !haskey(fields, id) && specVbOK(len(b.data) - old(b.i) - 1, b.data[old(b.i)+1], b.data[old(b.i)+2], b.data[old(b.i)+3], b.data[old(b.i)+4]) ==> b.err == nil   #C03
 //@     latch sid_cur:: b.err == nil && id == 11 && !haskey(fields, id) ==> b.i == old(b.i) + 1 + specVbWidth(specVbValue(b.data[old(b.i)+1], b.data[old(b.i)+2], b.data[old(b.i)+3], b.data[old(b.i)+4]))   #C03
